@@ -963,22 +963,31 @@ Proof. induction n; intros; simpl; [constructor |]. destruct l; [constructor |].
 Lemma Forall_skipn' {A} (P : A -> Prop) : forall n l, Forall P l -> Forall P (skipn n l).
 Proof. induction n; intros; simpl; [assumption |]. destruct l; [constructor |]. inversion H; subst. auto. Qed.
 
-Lemma chunks_concat : forall f n s, (0 < n)%nat -> (length s <= f)%nat -> flat_map (fun c => c) (chunks f n s) = s.
+Lemma cut_back_pos : forall j s k, cut_back j s = Some k -> (1 <= k <= j)%nat.
+Proof. induction j; intros s k H; cbn [cut_back] in H; [discriminate |]. destruct (rune_start (nth (S j) s 0)); [inversion H; lia | apply IHj in H; lia]. Qed.
+
+Lemma cut_pos : forall text n s, (0 < n)%nat -> (1 <= cut text n s <= n)%nat.
 Proof.
-  induction f; intros n s Hn Hl.
+  intros text n s Hn. unfold cut. destruct (text && (n <? length s)%nat); [| lia].
+  destruct (cut_back n s) as [k |] eqn:E; [apply cut_back_pos in E; lia | lia].
+Qed.
+
+Lemma chunks_concat : forall text f n s, (0 < n)%nat -> (length s <= f)%nat -> flat_map (fun c => c) (chunks text f n s) = s.
+Proof.
+  intros text. induction f; intros n s Hn Hl.
   - destruct s; [reflexivity | simpl in Hl; lia].
   - destruct s as [| x s']; [reflexivity |].
     cbn [chunks flat_map]. rewrite IHf.
     + apply firstn_skipn.
     + assumption.
-    + rewrite skipn_length. cbn [length] in *. lia.
+    + rewrite skipn_length. pose proof (cut_pos text n (x :: s') Hn). cbn [length] in *. lia.
 Qed.
 
 Lemma chunks_Forall (P Q : list N -> Prop) :
   (forall l n, Q l -> Q (skipn n l)) -> (forall l k, Q l -> P (firstn k l)) ->
-  forall f n s, Q s -> Forall P (chunks f n s).
+  forall text f n s, Q s -> Forall P (chunks text f n s).
 Proof.
-  intros Hs Hf. induction f; intros n s H; [constructor |].
+  intros Hs Hf text. induction f; intros n s H; [constructor |].
   destruct s as [| x s']; [constructor |].
   cbn [chunks]. constructor; [apply Hf; assumption | apply IHf; apply Hs; assumption].
 Qed.
@@ -999,7 +1008,7 @@ Lemma str_tree_twf : forall (O : eopts) (text : bool) (s : list N),
 Proof.
   intros O text s Hb Hl. unfold str_tree.
   assert (Hc : Forall (fun c => fits (fst c) (N.of_nat (length (snd c))) /\ bytes_ok (snd c))
-                 (map (fun c => (minw (N.of_nat (length c)), c)) (chunks (length s) (chunk_len (length s)) s))).
+                 (map (fun c => (minw (N.of_nat (length c)), c)) (chunks text (length s) (chunk_len (length s)) s))).
   { apply Forall_map. cbn [fst snd].
     apply (chunks_Forall _ (fun l => bytes_ok l /\ (length l <= length s)%nat)).
     - intros l n [H1 H2]. split; [apply Forall_skipn'; assumption | rewrite skipn_length; lia].
